@@ -738,24 +738,22 @@ func (ex *Exec) stackOf(fr *frame) []string {
 
 func (ex *Exec) recordViolation(kind, msg string, fr *frame, extra []*Term) {
 	v := &Violation{Harness: ex.harnessName, Kind: kind, Msg: msg, Pos: ex.posOf(fr), Stack: ex.stackOf(fr)}
-	if ex.vioKeys[v.Key()] {
-		return
-	}
 	if len(ex.trace) > 60 {
 		v.Trace = append([]string(nil), ex.trace[len(ex.trace)-60:]...)
 	} else {
 		v.Trace = append([]string(nil), ex.trace...)
 	}
+	// a known finding is kept once per entry of the known-findings file and never hides another
+	// violation at the same assertion (a different history failing the same assertion is reported)
+	vkey := v.Key()
 	if ex.cfg.KnownClass != nil {
 		if k := ex.cfg.KnownClass(v); k >= 0 {
 			v.Known = k + 1
-			kk := fmt.Sprintf("known#%d", k)
-			if ex.vioKeys[kk] {
-				ex.vioKeys[v.Key()] = true
-				return
-			}
-			ex.vioKeys[kk] = true
+			vkey = fmt.Sprintf("known#%d", k)
 		}
+	}
+	if ex.vioKeys[vkey] {
+		return
 	}
 	if ex.cfg.FixedInputs != nil {
 		v.Inputs = ex.cfg.FixedInputs
@@ -766,7 +764,7 @@ func (ex *Exec) recordViolation(kind, msg string, fr *frame, extra []*Term) {
 			return
 		}
 	}
-	ex.vioKeys[v.Key()] = true
+	ex.vioKeys[vkey] = true
 	v.Decisions = ex.decisionList()
 	for i := 0; i < ex.dpos && i < len(ex.decisions); i++ {
 		if isSchedKind(ex.decisions[i].kind) {
@@ -941,6 +939,8 @@ func (ex *Exec) Merge(o *Exec) {
 				continue
 			}
 			ex.vioKeys[kk] = true
+			ex.Violations = append(ex.Violations, v)
+			continue
 		}
 		if !ex.vioKeys[v.Key()] {
 			ex.vioKeys[v.Key()] = true
